@@ -277,6 +277,20 @@ func TestC08(t *testing.T) {
 			}
 		}
 		r.Label("integers-70000")
+		// whole numbers between 2^24 and 2^33 that are not float32 values (only a float32-exact value may
+		// take the 5-octet form), and their neighbours that are
+		for k := uint(24); k <= 33; k++ {
+			for _, d := range []int64{-3, -2, -1, 1, 2, 3, 5, 1<<(k-24) + 1, 1 << (k - 23)} {
+				for _, sgn := range []float64{1, -1} {
+					one(sgn*float64(int64(1)<<k+d), d%2 == 0)
+				}
+			}
+		}
+		for _, v := range []float64{123456789, 16777217, 99999999, 2147483647, -2147483648, 4294967295, 1e9 + 1, 1e8 + 1, 33554433} {
+			one(v, true)
+			one(-v, false)
+		}
+		r.Label("integers-beyond-float32-precision")
 	}
 	n := 200000
 	if rec.Thorough() {
